@@ -1364,8 +1364,8 @@ class timed_window(Stream):
             m = [m for ml in metadata for m in ml]
             # a single future, because update() hands it to every producer as well
             self.last = gen.convert_yielded(self._emit(L, m))
-            self._release_refs(m)
             yield self.last
+            self._release_refs(m)
             yield gen.sleep(self.interval)
 
 
@@ -1484,8 +1484,8 @@ class timed_window_unique(Stream):
             m = [m for ml in metadata_result for m in ml]
             # a single future, because update() hands it to every producer as well
             self.last = gen.convert_yielded(self._emit(result, m))
-            self._release_refs(m)
             yield self.last
+            self._release_refs(m)
             yield gen.sleep(self.interval)
 
 
